@@ -2,7 +2,7 @@ package backlog
 
 // C18 — the backlog ring returns the bytes written at an offset, or says they are gone.
 //
-//vf:job C18 quick VF_C18_Offsets size=0..2
+//vf:job C18 quick VF_C18_Offsets size=0..4
 //vf:job C18 quick VF_C18_ReadStep blen=0..3 file=0..1
 //vf:job C18 quick VF_C18_WriteStep blen=0..3 file=0..1
 //vf:job C18 quick VF_C18_Sequential variant=0..4
@@ -13,7 +13,7 @@ package backlog
 //vf:opt C18 preempt=2 thorough_preempt=3
 //vf:stub C18 (*os.File).ReadAt/WriteAt/Truncate/Close: byte-store file of ring size (file-backed steps only)
 //vf:assume C18 ghost stream: ring[q mod size] holds stream byte q for the last min(wpos,size) positions; one-step lemmas from an arbitrary 64-bit wpos, histories by induction (paper)
-//vf:assume C18 offset lemmas for ring sizes 4096, 4 MiB and 8; step lemmas on an 8-byte ring built directly; protocol runs on the real 4096-byte memory backlog
+//vf:assume C18 offset lemmas for ring sizes 4096, 12288, 4 MiB, 12 MiB and 8; step lemmas on an 8-byte ring built directly; protocol runs on the real 4096-byte memory backlog
 //vf:outside C18 more than two readers; data races at memory-model level; protocol runs with other sizes
 
 import (
@@ -30,7 +30,7 @@ func vfMin(a, b uint64) uint64 {
 	return b
 }
 
-var vfSizes = []uint64{4096, 4 << 20, 8}
+var vfSizes = []uint64{4096, 4 << 20, 8, 12288, 12 << 20}
 
 func VF_C18_Offsets() {
 	size := vfSizes[vfParam("size", 0)]
